@@ -1,5 +1,6 @@
 import Litep2pVerif.Common.Parse
 import Litep2pVerif.Model.Substream.Sink
+import Litep2pVerif.Model.Substream.TokioCodec
 /-!
 Line-protocol driver for the substream framing model (C04), in *checker mode*: the carrier (yamux
 flow control) is nondeterministic, so every line carries the implementation's observation
@@ -76,6 +77,116 @@ def busy (st : State) (w : Nat) : State × String :=
 
 def markStarted (st : State) : State := { st with started := st.started || !st.wire.isEmpty }
 
+/-! ### The `tokio_util` codecs of `src/codec/` (`tu` ops, stateless) -/
+
+def tuHash (bs : Bytes) : String :=
+  toString bs.length ++ ":" ++ toString (bs.foldl (fun h b => (h * 31 + b) % 1000003) 0)
+
+def tuErr : CodecErr → String
+  | .other => "e:Other"
+  | .permissionDenied => "e:PermissionDenied"
+  | .invalidData => "e:InvalidData"
+
+def tuRes : DecRes → String
+  | .frame f => "f" ++ tuHash f
+  | .needMore => "n"
+  | .err e => tuErr e
+
+def tuHex? (s : String) : Option Bytes := if s = "-" then some [] else hexBytes? s
+
+def tuItem? (s : String) : Option Bytes :=
+  match s.splitOn "*" with
+  | [len, fill] =>
+    match len.toNat?, fill.toNat? with
+    | some len, some fill => if len ≤ 2 ^ 24 ∧ fill < 256 then some (List.replicate len fill) else none
+    | _, _ => none
+  | _ => tuHex? s
+
+def tuList? (f : String → Option Bytes) (s : String) : Option (List Bytes) := (s.splitOn ",").mapM f
+
+/-- `Encoder::encode` of every item into one buffer: per-item results and the buffer. -/
+def tuEncodeAll (enc : Bytes → Bytes → Option Bytes) (errName : String) : List Bytes → Bytes → List String × Bytes
+  | [], dst => ([], dst)
+  | item :: rest, dst =>
+    match enc item dst with
+    | some dst' => let (rs, d) := tuEncodeAll enc errName rest dst'; ("ok" :: rs, d)
+    | none => let (rs, d) := tuEncodeAll enc errName rest dst; (errName :: rs, d)
+
+/-- What a fresh decoder yields (frames and errors; bytes left) when `bytes` arrive cut after `k`. -/
+def tuSplit {σ : Type} (d : Dec σ) (init : σ) (bytes : Bytes) (k : Nat) : List String × Nat :=
+  let (rs, _, buf, _) := feed d [bytes.take k, bytes.drop k] init [] 0
+  ((rs.filter (fun r => r != .needMore)).map tuRes, buf.length)
+
+def tuRoundtrip {σ : Type} (d : Dec σ) (init : σ) (res : List String) (dst : Bytes) : String :=
+  let first := tuSplit d init dst 0
+  let bad := (List.range (dst.length + 1)).find? (fun k => 0 < k ∧ tuSplit d init dst k != first)
+  "r=" ++ joinWith "," res ++ " dst=" ++ tuHash dst ++ " dec=" ++ joinWith "," first.1 ++ " rem=" ++ toString first.2 ++
+    " all=" ++ (match bad with | none => "1" | some k => "0:" ++ toString k)
+
+def tuDecodeOut {σ : Type} (d : Dec σ) (init : σ) (chunks : List Bytes) : String :=
+  let (rs, _, buf, _) := feed d chunks init [] 0
+  "r=" ++ joinWith "," (rs.map tuRes) ++ " rem=" ++ toString buf.length
+
+def tuStep (kind arg op data : String) : String :=
+  if kind = "uvi" ∨ kind = "uviw" then
+    if op = "henc" ∧ kind = "uvi" then
+      match tuItem? data with
+      | none => "bad-op"
+      | some item =>
+        match uviHelperEncode item with
+        | .error m => "panic " ++ m
+        | .ok (some out) => "ok " ++ tuHash out
+        | .ok none => tuErr .permissionDenied
+    else if op = "hdec" ∧ kind = "uvi" then
+      match tuHex? data with
+      | none => "bad-op"
+      | some bs =>
+        match uviHelperDecode bs with
+        | .ok (f, rest) => "ok f" ++ tuHash f ++ " rem=" ++ toString rest.length
+        | .error e => tuErr e
+    else
+      let max? : Option (Option Nat) := if arg = "none" then some none else arg.toNat?.map some
+      match max? with
+      | none => "bad-op"
+      | some max =>
+        if kind = "uviw" ∧ max.isNone then "bad-op" else
+        let st := UviState.new max
+        if op = "dec" then
+          match tuList? tuHex? data with
+          | some chunks => tuDecodeOut uviDec st chunks
+          | none => "bad-op"
+        else if op = "enc" ∨ op = "rt" then
+          match tuList? tuItem? data with
+          | some items =>
+            let (rs, dst) := tuEncodeAll (uviEncode st) (tuErr .permissionDenied) items []
+            if op = "enc" then "r=" ++ joinWith "," rs ++ " dst=" ++ tuHash dst else tuRoundtrip uviDec st rs dst
+          | none => "bad-op"
+        else "bad-op"
+  else if kind = "id" then
+    if op = "henc" then
+      match tuItem? data with
+      | some item => "ok " ++ tuHash item
+      | none => "bad-op"
+    else
+      match arg.toNat? with
+      | none => "bad-op"
+      | some n =>
+        match idNew n with
+        | .error m => "panic " ++ m
+        | .ok n =>
+          if op = "dec" then
+            match tuList? tuHex? data with
+            | some chunks => tuDecodeOut (idDec n) () chunks
+            | none => "bad-op"
+          else if op = "enc" ∨ op = "rt" then
+            match tuList? tuItem? data with
+            | some items =>
+              let (rs, dst) := tuEncodeAll (idEncode n) (tuErr .invalidData) items []
+              if op = "enc" then "r=" ++ joinWith "," rs ++ " dst=" ++ tuHash dst else tuRoundtrip (idDec n) () rs dst
+            | none => "bad-op"
+          else "bad-op"
+  else "bad-op"
+
 def stepCore (st : State) (line : String) : State × String :=
   let (opPart, obsPart) := match line.splitOn " -> " with
     | [a, b] => (a, b)
@@ -85,6 +196,7 @@ def stepCore (st : State) (line : String) : State × String :=
   let claimed := obs.headD ""
   let w := ((arg? "w" obs).bind String.toNat?).getD 0
   match ts, st.codec with
+  | ["tu", kind, arg, op, data], _ => (st, tuStep kind arg op data)
   | "codec" :: kind :: arg :: _, _ =>
     let codec? : Option Codec :=
       if kind = "identity" then arg.toNat?.map Codec.identity
